@@ -59,6 +59,8 @@ type Ctx struct {
 	trusted map[string]bool
 
 	wantControls []string
+	termMemo     map[ssa.Value]string
+	termBusy     map[ssa.Value]bool
 	eff          *effects
 }
 
